@@ -66,13 +66,14 @@ Theorem C03_icmp_verifies : forall typ id seq b,
 Proof. exact icmp_verifies. Qed.
 
 (** every finite echo history: one identifier, the n-th request (reply) carries the number of earlier
-    requests (replies) *)
+    requests (replies) -- in the 16-bit field, i.e. modulo 2^16 *)
 Theorem C03_icmp_seq_counts : forall ops f f' l,
+  if_ping f < 65536 -> if_pong f < 65536 ->
   icmp_run f ops = Ok (f', l) ->
   if_id f' = if_id f
-  /\ if_ping f' = if_ping f + count_before true ops /\ if_pong f' = if_pong f + count_before false ops
+  /\ if_ping f' = (if_ping f + count_before true ops) mod 65536 /\ if_pong f' = (if_pong f + count_before false ops) mod 65536
   /\ forall n req id seq, nth_error l n = Some (req, id, seq) ->
-       id = if_id f /\ seq = (if req then if_ping f else if_pong f) + count_before req (firstn n ops).
+       id = if_id f /\ seq = ((if req then if_ping f else if_pong f) + count_before req (firstn n ops)) mod 65536.
 Proof. exact icmp_seq_counts. Qed.
 
 Example C03_nonvacuous :
